@@ -14,7 +14,7 @@ pub fn def() -> PropDef {
         job_level,
         run_job,
         replay,
-        rule: "configs: 4 end-variants (one-shot-press, -release, -press-pcancel, -release-pcancel) x timeout T in {4,8} x rapid-event-delay {5,0} x body in {modifier key, output chord C-S-.., (layer-while-held nav)}; keys a, b = one-shot keys (lsft / lctl, or layer), c, d = plain keys. Histories: EVERY physically consistent schedule of N events over press/release of a,b,c,d with gaps from {0,1,T-1,T,T+1} (quick N=4, thorough N=5/6), then released and settled. Second family (quick and thorough): steps {tap a, tap b (press, 1 tick, release), toggle a/b/c/d} with gaps {1,T-1,T+1}, all sequences of N steps. Stacking family: n = 1..20 distinct one-shot keys tapped in a row (crossing the 16-entry table) then one plain key, all n. Oracle OneShotSpec: for every plain-key press output, the set of one-shot outputs held at the OS at that instant equals the spec's set: the active one-shot keys (combined, timer restarted by each one-shot tap) until the first following plain key press (press variants) / release of a newly pressed plain key (release variants) / re-press of an active one-shot key (pcancel) / timeout, plus every physically held one-shot key; nothing after that point is modified; plain keys are output in input order, none lost; nothing is held after settle. Boundaries within the processing skew (queue delay + rapid-event-delay + 1) of the timeout branch into both readings.",
+        rule: "configs: 4 end-variants (one-shot-press, -release, -press-pcancel, -release-pcancel) x timeout T in {4,8} x rapid-event-delay {5,0} x body in {modifier key, output chord C-S-.., (layer-while-held nav)}; keys a, b = one-shot keys (lsft / lctl, or layer), c, d = plain keys. Histories: EVERY physically consistent schedule of N events over press/release of a,b,c,d with gaps from {0,1,T-1,T,T+1} (quick N=4, thorough N=5), then released and settled. Second family (quick and thorough): steps {tap a, tap b (press, 1 tick, release), toggle a/b/c/d} with gaps {1,T-1,T+1}, all sequences of N steps. Stacking family: n = 1..20 distinct one-shot keys tapped in a row (crossing the 16-entry table) then one plain key, all n. Oracle OneShotSpec: for every plain-key press output, the set of one-shot outputs held at the OS at that instant equals the spec's set: the active one-shot keys (combined, timer restarted by each one-shot tap) until the first following plain key press (press variants) / release of a newly pressed plain key (release variants) / re-press of an active one-shot key (pcancel) / timeout, plus every physically held one-shot key; nothing after that point is modified; plain keys are output in input order, none lost; nothing is held after settle. Boundaries within the processing skew (queue delay + rapid-event-delay + 1) of the timeout branch into both readings.",
         assumptions: &["timer boundaries within the processing skew are don't-cares (both readings accepted)", "for layer bodies the observable is the layer the plain key resolves on"],
         required_level,
         min_outcomes: 3,
@@ -102,7 +102,9 @@ fn jobs(tier: Tier) -> &'static Vec<Job> {
                                 if body != 0 && (t != 4 || (tier == Tier::Quick && red != 5)) {
                                     continue;
                                 }
-                                if n >= 6 && (t != 4 || body != 0) {
+                                // N = 6 schedules (20^5 per shard) do not fit any reasonable deadline: the deepest
+                                // level is run for the taps family only
+                                if n >= 6 {
                                     continue;
                                 }
                                 for first in 0..20 {
